@@ -161,11 +161,21 @@ def add_item(p: Prog, item: int, ev: int, ctr: list, depth=0, nested=-1):
         p._open("do", "#DO", f"do {10 * k} j{k} = 1, 3")
         inner()
         p._close("continue", n=2, label=str(10 * k))
+    elif item == 13:  # labelled DO closed by a labelled END DO; the label is used again by later loops (e.g. of the next procedure)
+        lab = str(77 + depth)
+        p._open("do", "#DO", f"do {lab} i{k} = 1, 3")
+        inner()
+        p._close("end do", label=lab)
+    elif item == 14:  # the same label again, terminated by CONTINUE
+        lab = str(77 + depth)
+        p._open("do", "#DO", f"do {lab} i{k} = 1, 3")
+        inner()
+        p._close("continue", label=lab)
     else:
         raise ValueError(item)
 
 
-EXEC_ITEMS = [1, 2, 3, 4, 5, 6, 7, 8, 9, 10, 11, 12]
+EXEC_ITEMS = [1, 2, 3, 4, 5, 6, 7, 8, 9, 10, 11, 12, 13, 14]
 N_EXEC = len(EXEC_ITEMS)
 
 
@@ -278,7 +288,8 @@ def layout(p: Prog, lay: Layout):
         if fixed:
             head = (label or "").ljust(5) + " " if label else "      "
             ind = head + ind
-        elif label:
+        ind_cont = ind  # a continuation line carries no label
+        if not fixed and label:
             ind = ind + label + " "
         line_of[i] = len(lines)
         if lay.split is not None and lay.split[0] == i and 0 < lay.split[1] < len(toks):
@@ -293,7 +304,7 @@ def layout(p: Prog, lay: Layout):
                 lines.append(ind + first + " &" + (lay.cont_comment or ""))
                 if lay.cont_gap is not None:
                     lines.append(lay.cont_gap)
-                lines.append(ind + ("& " if lay.lead_amp else "  ") + second)
+                lines.append(ind_cont + ("& " if lay.lead_amp else "  ") + second)
         elif lay.join == i and i + 1 < n and not fixed and not p.sts[i + 1].label and p.sts[i + 1].kind != "x":
             nxt = p.sts[i + 1]
             line_of[i + 1] = len(lines)
